@@ -142,7 +142,15 @@ func isOpaqueNamed(t types.Type) bool {
 
 func isSeqType(t types.Type) bool {
 	n, ok := t.(*types.Named)
-	return ok && (n.Obj().Name() == "seq" || n.Obj().Name() == "msnap") && n.Obj().Pkg() != nil
+	return ok && (n.Obj().Name() == "seq" || n.Obj().Name() == "msnap" || n.Obj().Name() == "ssnap") && n.Obj().Pkg() != nil
+}
+
+// SliceSnap is a ghost snapshot of a slice (header and element content).
+type SliceSnap struct {
+	Len  *Term
+	Off  *Term
+	Arrs []*Term // per element leaf: content array at snapshot time
+	Elem types.Type
 }
 
 // MapSnap is a ghost snapshot of a map's content.
